@@ -297,6 +297,7 @@ struct HoleDirs {
     snaps: Vec<(String, String)>,
     first: Vec<String>,
     replace_opt: Vec<(String, String, String)>,
+    replace_all: Vec<(String, String, String)>,
     before_opt: Vec<(String, String)>,
     after_opt: Vec<(String, String)>,
     loopstart: BTreeMap<usize, String>,
@@ -329,7 +330,7 @@ fn parse_quoted(s: &str) -> R<(String, &str)> {
 
 fn parse_dirs(lines: &[&str]) -> R<HoleDirs> {
     // join continuation lines: a directive starts with a keyword at line start (after trim)
-    let kws = ["subst ", "closure ", "loop ", "before ", "after ", "beforeopt ", "afteropt ", "replace ", "replaceopt ", "selfname ", "nosig", "probe ", "hint ", "split ", "snap ", "first ", "loopstart ", "loopend "];
+    let kws = ["subst ", "closure ", "loop ", "before ", "after ", "beforeopt ", "afteropt ", "replace ", "replaceopt ", "replaceall ", "selfname ", "nosig", "probe ", "hint ", "split ", "snap ", "first ", "loopstart ", "loopend "];
     let mut items: Vec<String> = Vec::new();
     for l in lines {
         let t = l.trim();
@@ -417,6 +418,13 @@ fn parse_dirs(lines: &[&str]) -> R<HoleDirs> {
             let (q, r) = parse_quoted(rest)?;
             let t = r.trim_start().strip_prefix("=>").ok_or_else(|| Bail("after: missing =>".into()))?;
             d.after.push((q, t.trim().to_string()));
+        } else if let Some(rest) = it.strip_prefix("replaceall ") {
+            // every occurrence (zero or more) of a call that occurs several times in one body
+            let (q, r) = parse_quoted(rest)?;
+            let t = r.trim_start().strip_prefix("=>").ok_or_else(|| Bail("replaceall: missing =>".into()))?;
+            let (q2, r2) = parse_quoted(t)?;
+            let why = r2.trim_start().strip_prefix("::").unwrap_or("").trim().to_string();
+            d.replace_all.push((q, q2, why));
         } else if let Some(rest) = it.strip_prefix("replaceopt ") {
             // like `replace`, but a missing snippet is not a lost anchor (the contract must then fail on its own)
             let (q, r) = parse_quoted(rest)?;
@@ -929,6 +937,13 @@ fn transform_body(
             edits.push(Edit { start: p, end: p, text: format!(" {text}") });
         }
     }
+    for (snip, text, why) in &dirs.replace_all {
+        for (off, _) in body_text.match_indices(snip.as_str()) {
+            let p = lo + off;
+            edits.push(Edit { start: p, end: p + snip.len(), text: text.clone() });
+            fired.push(format!("REWRITE `{snip}` => `{text}` ({why})"));
+        }
+    }
     for (snip, text, why) in &dirs.replace_opt {
         if let Ok(p) = locate(snip) {
             edits.push(Edit { start: p, end: p + snip.len(), text: text.clone() });
@@ -1075,6 +1090,10 @@ fn check_sig(template_name: &str, tpl: &str, hole_start: usize, name: &str, f: &
             sig_pos = Some(i);
             break;
         }
+    }
+    if sig_pos.is_none() && nosig {
+        // the template gives the function another name (two impls of one trait method on one type) and its own signature
+        return Ok(real_sig_key(f.sig(), subst, fired));
     }
     let sig_pos = sig_pos.ok_or_else(|| Bail(format!("template {template_name}: no `fn {name}` before its hole")))?;
     let mut sig_text = &before[sig_pos..];
